@@ -87,6 +87,8 @@ pub struct World {
     /// uuid strings of segments seen in the registers hook (uncommitted, committed)
     pub regs: Arc<Mutex<(Vec<String>, Vec<String>)>>,
     pub readers: Vec<IndexReader>,
+    /// a second Index instance on the same directory (`open_second`), swapped in by `switch_index`
+    pub other: Option<Index>,
 }
 
 pub fn body_of(id: u64, t: &str) -> String {
@@ -129,7 +131,7 @@ impl World {
             Index::open(dir.clone()).expect("open index")
         };
         tantivy::verif::set_flush_after_docs(cfg.flush_after);
-        World { dir, tracer: tracer.clone(), index, writer: None, f, cfg: cfg.clone(), regs: Arc::new(Mutex::new((vec![], vec![]))), readers: vec![] }
+        World { dir, tracer: tracer.clone(), index, writer: None, f, cfg: cfg.clone(), regs: Arc::new(Mutex::new((vec![], vec![]))), readers: vec![], other: None }
     }
 
     pub fn merge_policy(&self) -> Box<dyn MergePolicy> {
@@ -250,6 +252,26 @@ impl World {
                 Ok(()) => json!({"ev":"new_writer","ok":true,"commit_opstamp":self.writer.as_ref().map(|w| w.commit_opstamp())}),
                 Err(e) => json!({"ev":"new_writer","ok":false,"err":e}),
             },
+            // a second Index instance on the same directory, as another process (or another part of
+            // this one) has: it reads meta.json and .managed.json NOW
+            "open_second" => match Index::open(self.dir.clone()) {
+                Ok(i) => {
+                    self.other = Some(i);
+                    json!({"ev":"open_second","ok":true})
+                }
+                Err(e) => json!({"ev":"open_second","ok":false,"err":errclass(&e)}),
+            },
+            // from now on the writer is created through the other instance (no writer may be open)
+            "switch_index" => {
+                if self.writer.is_some() || self.other.is_none() {
+                    json!({"ev":"switch_index","ok":false})
+                } else {
+                    let o = self.other.take().unwrap();
+                    self.other = Some(std::mem::replace(&mut self.index, o));
+                    self.readers.clear();
+                    json!({"ev":"switch_index","ok":true})
+                }
+            }
             "drop_writer" => {
                 let had = self.writer.is_some();
                 self.writer = None;
